@@ -69,6 +69,17 @@ _tok('shape4', [
 ], ['A', 'B', 'C', '_D', 'D'], {'unamb', 'shaping'}, declare=['A', 'B', 'C', '_D'])
 
 
+# ambiguity through inlined / conditionally inlined rules and through intermediate nodes
+_tok('amb_inl', [Rule('start', [[N('a'), N('a')]]), Rule('?a', [[N('_b')], [N('c')]]), Rule('_b', [[A], [A, A]]), Rule('c', [[A]])],
+     ['A', 'B'], {'ambiguous', 'amb'})
+_tok('amb_mid', [Rule('start', [[N('x'), N('x'), N('x')]]), Rule('x', [[A], [A, A]])], ['A', 'B'], {'ambiguous', 'amb', 'cnf_ok'})
+_tok('amb_exp1', [Rule('start', [[N('e')]]), Rule('?e', [[N('e'), T('P'), N('e')], [T('X')], [N('_p')]]), Rule('_p', [[T('X'), T('P'), T('X')]])],
+     ['P', 'X'], {'ambiguous', 'amb'})
+_tok('amb_alias', [Rule('start', [[N('s'), N('s')], [N('s')]]), Rule('s', [Alt([A], alias='one'), Alt([A, A], alias='two'), [A, A, A]])],
+     ['A', 'B'], {'ambiguous', 'amb'})
+_tok('amb_null', [Rule('start', [[N('o'), A, N('o')]]), Rule('o', [[], [A], [N('o'), N('o2')]]), Rule('o2', [[B]])], ['A', 'B'], {'ambiguous', 'amb'})
+
+
 def tok_names(tag=None, exclude=()):
     return [k for k, v in TOK.items() if (tag is None or tag in v['tags']) and not (set(exclude) & v['tags'])]
 
